@@ -464,3 +464,26 @@ pub fn run(ctx: &Ctx) {
         threads_sampling(ctx);
     }
 }
+
+/// Single-case replay: orders/duplicates and hash-order sensitivity of the recorded list and settings.
+pub fn replay_case(ctx: &Ctx, v: &crate::ev::Violation) {
+    let canon = canonical(&v.tcs);
+    let expect = v.cfg.build(&canon);
+    let mut variants = permutations(&canon);
+    variants.push(v.tcs.clone());
+    for var in &variants {
+        let o = v.cfg.build(var);
+        if o != expect {
+            ctx.run.violation(viol("C10", "determinism", "order-or-duplicate-sensitive".into(), var, &v.cfg, o.as_deref().unwrap_or("<panic>"), json!({"expected": expect.clone().unwrap_or_default()})));
+            return;
+        }
+    }
+    let b = || v.cfg.build(&v.tcs);
+    let r = explore(&b, Some(2), 20_000);
+    if r.outs.len() > 1 {
+        ctx.run.violation(viol("C10", "determinism", "hash-order-sensitive".into(), &v.tcs, &v.cfg, "", json!({"distinct_outputs": r.outs.iter().collect::<Vec<_>>()})));
+    }
+    if let Some(h) = v.detail.get("history").and_then(|h| h.as_array()) {
+        println!("  recorded history: {:?} (histories are replayed by `check C10 quick`)", h);
+    }
+}
